@@ -765,6 +765,16 @@ func buildRequest(m *model, q Req, k int, knownID string, sc Scenario, desc *des
 		set(expEither, "addresses another session than the one bound to this connection", nil)
 		return req, b
 	}
+	// ... or may carry: a connection that addressed another live session before, with a request that
+	// failed, may or may not be bound to it (the library binds it; the statement does not say)
+	if tgt != nil {
+		for _, x := range m.sessions {
+			if x != tgt && x.alive && x.maybe[k] {
+				set(expEither, "this connection addressed another live session before (with a request that failed)", nil)
+				return req, b
+			}
+		}
+	}
 	if tgt == nil && hdr == "none" {
 		switch method {
 		case base.Announce, base.Setup:
